@@ -88,6 +88,8 @@ RULE = ('one program per identity and operand set, both sides built over the sam
         'with a remainder / of exactly one window, padding 0 and 1; stride 1; stride kernel + 1}; max / avg pool 2-d and conv2d over kernels (2,2) (3,3) (2,3) (1,2) x dilations '
         '(1,1) (2,2) (1,2) (2,1) (3,3) (3,1) x extents with / without remainder at stride = kernel, padding 0; wherever stride = kernel the call is ALSO made with '
         'the stride left to its default (stride=None, stride omitted; function and layer class). '
+        'FALSY OPERAND VALUES: linear / conv2d / Neuron-vs-Linear(in, 1) with a bias of exactly 0.0 / -0.0 (one output feature / channel, and all-zero biases of 1-3 entries), '
+        'all-zero weights, both: values and every gradient incl. the bias gradient. '
         'Non-trivial: every case (each has a differentiable leaf and > 1 element).')
 EXHAUSTIVE = {'quick': False, 'thorough': False}
 ASSUMPTIONS = ['float64; identities that pass through log(x + 1e-12) hold up to that guard (tolerance 1e-6 on moderate values)']
@@ -310,7 +312,7 @@ def finish(b, lhs, rhs, rng, tol=1e-9):
 _BIG_BUDGET = [1]
 
 
-def gen_identity(rng, which, big=False, mask=None, views=0.0, kinds=None, force=None, nobig=False, geom=None):
+def gen_identity(rng, which, big=False, mask=None, views=0.0, kinds=None, force=None, nobig=False, geom=None, falsy=None):
     """`mask`: None = every operand requires grad; p = every operand leaf requires grad with probability p (at least one does);
     a list = the flags of the operand leaves in order (stack / unbind then take that many operands, conv2d a bias when there are three)"""
     nmask = len(mask) if isinstance(mask, (list, tuple)) else None
@@ -350,9 +352,12 @@ def gen_identity(rng, which, big=False, mask=None, views=0.0, kinds=None, force=
         l = b.op('log_softmax', [x], d)
         sm = b.op('softmax', [x], d); r = b.op('log', [sm])
         return finish(b, l, r, rng, 1e-6 if dt == 'f64' else 2e-4)
+    Z = lambda sh: [rng.pick([0.0, 0.0, -0.0]) for _ in range(int(np.prod(sh)))]      # an operand whose VALUE is falsy
+    fz = falsy or ''
     if which == 'linear':
         n, i, o = rng.randint(1, 3), rng.randint(1, 4), rng.randint(1, 3)
-        x, w, bb = b.leaf((n, i), V((n, i))), b.leaf((o, i), V((o, i))), b.leaf((o,), V((o,)))
+        if fz: o = 1 if 'one' in fz else o
+        x, w, bb = b.leaf((n, i), V((n, i))), b.leaf((o, i), Z((o, i)) if 'weight' in fz else V((o, i))), b.leaf((o,), Z((o,)) if 'bias' in fz else V((o,)))
         l = b.op('linear', [x, w, bb], 1)
         wt = b.op('transpose', [w], 0, 1); mm = b.op('matmul', [x, wt]); r = b.op('add', [mm, bb])
         return finish(b, l, r, rng)
@@ -371,10 +376,11 @@ def gen_identity(rng, which, big=False, mask=None, views=0.0, kinds=None, force=
         return finish(b, l, r, rng)
     if which == 'conv2d':
         n, c, co = rng.randint(1, 2), rng.randint(1, 2), rng.randint(1, 2)
+        if fz: co = 1 if 'one' in fz else rng.randint(1, 3)
         (H, kh, sh_, ph, dh), (W, kw, sw, pw, dw) = geom or gen_ops.geom2(rng)
         lh = (H + 2 * ph - dh * (kh - 1) - 1) // sh_ + 1; lw = (W + 2 * pw - dw * (kw - 1) - 1) // sw + 1
-        x, w = b.leaf((n, c, H, W), V((n, c, H, W))), b.leaf((co, c, kh, kw), V((co, c, kh, kw)))
-        bias = b.leaf((co,), V((co,))) if (nmask == 3 or (nmask is None and rng.chance(.5))) else None          # with a bias: ... + b per output channel
+        x, w = b.leaf((n, c, H, W), V((n, c, H, W))), b.leaf((co, c, kh, kw), Z((co, c, kh, kw)) if 'weight' in fz else V((co, c, kh, kw)))
+        bias = b.leaf((co,), Z((co,)) if 'bias' in fz else V((co,))) if (fz or nmask == 3 or (nmask is None and rng.chance(.5))) else None          # with a bias: ... + b per output channel
         l = b.op('conv2d', [x, w] + ([bias] if bias is not None else []), int(bias is not None), show_ints((sh_, sw)), show_ints((ph, pw)), show_ints((dh, dw)))
         u = b.op('unfold', [x], show_ints((kh, kw)), show_ints((dh, dw)), show_ints((sh_, sw)), show_ints((ph, pw)), fbits(0.0))
         wm = b.op('reshape', [w], show_ints((co, c * kh * kw)))
@@ -501,9 +507,9 @@ def gen_identity(rng, which, big=False, mask=None, views=0.0, kinds=None, force=
         # nn.Sequential / nn.Neuron built from the same parameter values, run on the implementation only (impl-side relation)
         n = rng.randint(1, 3)
         if which == 'neuronmod':
-            i = rng.randint(1, 4); hb = rng.chance(.6)
-            x, w = b.leaf((n, i), V((n, i))), b.leaf((1, i), V((1, i)))
-            bb = b.leaf((1,), V((1,))) if hb else None
+            i = rng.randint(1, 4); hb = rng.chance(.6) or bool(fz)
+            x, w = b.leaf((n, i), V((n, i))), b.leaf((1, i), Z((1, i)) if 'weight' in fz else V((1, i)))
+            bb = b.leaf((1,), (Z((1,)) if 'bias' in fz else V((1,)))) if hb else None
             r = b.op('linear', [x, w] + ([bb] if hb else []), int(hb))
             spec = {'kind': 'neuron', 'x': x, 'w': w, 'b': bb, 'in': i}
             # the same objects for the model: Neuron(in) and Linear(in, 1) with the same values, their attributes and outputs
@@ -628,6 +634,10 @@ IDS = ['ce', 'bcel', 'logsoftmax', 'linear', 'neuron', 'addmm', 'conv2d', 'maxpo
        'flatten', 'movedim', 'seq', 'seq', 'neuronmod']
 
 
+FALSY_IDS = ['linear', 'conv2d', 'neuronmod']
+FALSY_KINDS = ['zero bias, one output', 'zero bias', 'zero weight', 'zero weight and bias, one output']
+
+
 def geometry_grid(tier):
     """the small geometry grid, ENUMERATED (not drawn): stride = kernel (the default configuration: non-overlapping windows) x
     padding 0 / 1 x dilation 1, 2, 3 x input lengths that consist of whole windows / leave a remainder / hold exactly one window,
@@ -697,6 +707,15 @@ def cases(rng, tier):
                 c = gen_identity(rng, w, mask=list(flags))
                 c['id'] = w; c['subset'] = True
                 c['desc'] = w + ' (operands requiring grad: ' + c['mask'] + '): ' + ' ; '.join(c['lines'])[:500]
+                out.append(c)
+    # OPTIONAL / PARAMETER operands whose VALUE is falsy: a bias of exactly 0.0 / -0.0 (one output: Neuron, Linear(in, 1), one output channel; and
+    # all-zero biases of 1-3 entries), all-zero weights, both — the operand is still an operand: values and EVERY gradient incl. the bias gradient
+    for w in FALSY_IDS:
+        for fz in FALSY_KINDS:
+            for _ in range(2 if tier == 'quick' else 30):
+                c = gen_identity(rng, w, mask=None if _ % 2 == 0 else [rng.randint(0, 1), rng.randint(0, 1), 1], falsy=fz)
+                c['id'] = w; c['falsy'] = fz
+                c['desc'] = w + f' (falsy operand values: {fz}): ' + ' ; '.join(c['lines'])[:500]
                 out.append(c)
     # EVERY identity with all its operands behind each kind of non-contiguous view; flatten = reshape additionally over
     # (view kind) x (whole tensor / prefix / suffix) — a fast path for one range and one memory layout shows up here
@@ -824,6 +843,9 @@ def distribution(cases):
                 if k: d[k] = d.get(k, 0) + 1
         for v in c.get('views', []): d[f'operand behind a non-contiguous view: {v}'] = d.get(f'operand behind a non-contiguous view: {v}', 0) + 1
         if c.get('views'): d[f"{c['id']} on non-contiguous operands"] = d.get(f"{c['id']} on non-contiguous operands", 0) + 1
+        if c.get('falsy'):
+            k = f"{c['id']} with falsy operand values: {c['falsy']}"
+            d[k] = d.get(k, 0) + 1
         m = c.get('mask', '')
         if len(m) > 1:          # which operand leaves require grad (g) / are constants (c), in operand order
             k = 'operands requiring grad: ' + ('all' if 'c' not in m else 'mixed, a constant before a differentiable one' if m.find('c') < m.rfind('g') else 'mixed, constants last')
